@@ -62,7 +62,9 @@ func checkRouting(x *vs.X, w *world) {
 		if wantNAT == "" || wantNAT == "-" {
 			wantNAT = "unknown"
 		}
-		if p.offerNAT != wantNAT {
+		if !c03Canonical(owner.nat) {
+			// a spelling outside the three names: how the broker reads it is left open
+		} else if p.offerNAT != wantNAT {
 			x.Fail("offer-nat", "offer-nat-mismatch", "poll %s was told client NAT %q, client c%d sent %q", p.sid, p.offerNAT, owner.idx, owner.nat)
 		}
 	}
@@ -177,7 +179,32 @@ func init() {
 
 var c03ProxyNAT = []string{NATUnrestricted, NATRestricted, NATUnknown, "-"}
 var c03Loads = []int{0, 8, 16}
-var c03ClientNAT = []string{NATUnrestricted, NATRestricted, NATUnknown, "", "-"}
+
+// client NAT values: the three names, empty, absent ("-"), and spellings a decoder might be tempted to
+// tolerate (case, surrounding space) or must reject (unrecognised)
+var c03ClientNAT = []string{NATUnrestricted, NATRestricted, NATUnknown, "", "-", "Restricted", "UNRESTRICTED", "unknown ", " restricted", "symmetric"}
+
+// canonical names only (the first five) have a defined meaning; for the others the statement leaves
+// open whether the broker refuses the request, reads it after normalisation, or treats it as unknown
+func c03Canonical(nat string) bool {
+	switch nat {
+	case NATUnrestricted, NATRestricted, NATUnknown, "", "-":
+		return true
+	}
+	return false
+}
+
+// pools from which a client with this NAT value may be served
+func clientPools(c *clientRec) []int {
+	if c03Canonical(c.nat) {
+		return []int{clientPool(c)}
+	}
+	pools := []int{0} // treated as unknown
+	if strings.ToLower(strings.TrimSpace(c.nat)) == NATUnrestricted {
+		pools = append(pools, 1) // read after normalisation
+	}
+	return pools
+}
 
 func effNAT(s string) string {
 	if s == "" || s == "-" {
@@ -311,7 +338,11 @@ func init() {
 			for _, c := range w.clients {
 				if p := holder[c.offer]; p != nil {
 					matchedFrom[proxyPool(p)]++
-					if proxyPool(p) != clientPool(c) {
+					okPool := false
+					for _, pl := range clientPools(c) {
+						okPool = okPool || pl == proxyPool(p)
+					}
+					if !okPool {
 						x.Fail("nat-compat", "nat-incompatible", "client c%d (NAT %q) was matched with proxy %s (NAT %q)", c.idx, c.nat, p.sid, p.natWire)
 					}
 				}
@@ -321,6 +352,9 @@ func init() {
 					continue
 				}
 				if holder[c.offer] == nil {
+					if !c03Canonical(c.nat) {
+						continue // may be refused as invalid, or served like unknown: nothing more is promised
+					}
 					if c.errStr != messages.StrNoProxies {
 						x.Fail("refusal", "unmatched-not-refused", "client c%d unmatched but told %q", c.idx, c.errStr)
 					}
